@@ -5,7 +5,10 @@
      O<r|w|a><T|F closefd><T|F read_evlrs>:<outcome>:<offset>,<count>,<psize>,<minor>,<nevlrs>,<evlr_start>,<evlr_bytes>,<size>
      P<n>  S<pos>:<whence>  A (read)  Q (.point_source)  W (write/append points)  Bl | Bo (with-body raises Laspy / other)
      X (exit)  C (close)  D<outcome> (LasData.write)  L<T|F closefd>:<outcome>:<finfo> (laspy.read)  Z (caller rewinds)
-     outcomes: ok empty badsig trunc badvlr incompat
+     F<l|o|b> (an operation on the handle raises: the stream failed under it; class Laspy / other Exception / not an Exception)
+     Y<x|c><j>:<l|o|b> (with-exit | close() and the j-th fallible statement of the close method raises)
+     M<T|F closefd>:<l|o|b>:<finfo> (laspy.read whose read() fails because the stream did)
+     outcomes: ok empty badsig trunc badvlr incompat fault-<l|o|b> (the stream fails while the constructor runs)
    output: one token per event  <res>/<closed>/<pos>/<handle>  with res in ok|xl|xo|ig, handle = - or <mode><closefd><ps><src>,
            then `#` and the log entries <how>:<closefd>:<was_open>:<closed>, then `#` and T/F (all entries satisfy obs_okb) *)
 open Model
@@ -37,7 +40,10 @@ let bool_of_char c = (c = 'T')
 let tok_of_bool b = if b then "T" else "F"
 
 let cap_of_tok = function "T" -> CapYes | "F" -> CapNo | "A" -> CapAbsent | s -> failwith ("seekability " ^ s)
+let exn_of_char = function 'l' -> XLaspy | 'o' -> XOther | 'b' -> XBase | c -> failwith "exception class"
+let rec nat_of_int n = if n <= 0 then O else S (nat_of_int (n - 1))
 let outcome_of = function
+  | "fault-l" -> OFault XLaspy | "fault-o" -> OFault XOther | "fault-b" -> OFault XBase
   | "ok" -> OOk | "empty" -> OEmpty | "badsig" -> OBadSig | "trunc" -> OTruncated | "badvlr" -> OBadVlr
   | "incompat" -> OIncompat | s -> failwith ("outcome " ^ s)
 let mode_of = function 'r' -> MR | 'w' -> MW | 'a' -> MA | c -> failwith "mode"
@@ -59,7 +65,14 @@ let event_of t =
   | 'A' -> EReadAll
   | 'Q' -> EPointSource
   | 'W' -> EWrite
-  | 'B' -> EBodyRaises (if t.[1] = 'l' then XLaspy else XOther)
+  | 'B' -> EBodyRaises (exn_of_char t.[1])
+  | 'F' -> EOpFault (exn_of_char t.[1])
+  | 'Y' -> (match String.split_on_char ':' (rest t 2) with
+            | [j; c] -> EEndFault (t.[1] = 'x', nat_of_int (int_of_string j), exn_of_char c.[0])
+            | _ -> failwith ("endfault " ^ t))
+  | 'M' -> (match String.split_on_char ':' (rest t 2) with
+            | [""; c; f] | [c; f] -> EReadLasFault (bool_of_char t.[1], finfo_of f, exn_of_char c.[0])
+            | _ -> failwith ("readlasfault " ^ t))
   | 'X' -> EExit
   | 'C' -> EClose
   | 'D' -> ELasDataWrite (outcome_of (rest t 1))
@@ -69,7 +82,7 @@ let event_of t =
   | 'Z' -> ERewind (if String.length t > 1 then z_of_string (rest t 1) else Z0)
   | _ -> failwith ("event " ^ t)
 
-let tok_of_res = function RDone -> "ok" | RRaised XLaspy -> "xl" | RRaised XOther -> "xo" | RIgnored -> "ig"
+let tok_of_res = function RDone -> "ok" | RRaised XLaspy -> "xl" | RRaised XOther -> "xo" | RRaised XBase -> "xb" | RIgnored -> "ig"
 let tok_of_mode = function MR -> "r" | MW -> "w" | MA -> "a"
 let tok_of_ps = function PNone -> "n-" | PReal b -> "r" ^ tok_of_bool b | PNull b -> "e" ^ tok_of_bool b
 let tok_of_handle = function
@@ -77,7 +90,7 @@ let tok_of_handle = function
   | Some h -> tok_of_mode h.h_mode ^ tok_of_bool h.h_closefd ^ tok_of_ps h.h_ps
 let tok_of_how = function
   | HFailedOpen -> "failed" | HPrecondition -> "precondition" | HExit -> "exit" | HClose -> "close"
-  | HBodyRaised -> "body" | HLasDataWrite -> "lasdatawrite"
+  | HBodyRaised -> "body" | HLasDataWrite -> "lasdatawrite" | HCloseFault -> "closefault"
 let tok_of_obs o = String.concat ":" [tok_of_how o.o_how; tok_of_bool o.o_closefd; tok_of_bool o.o_was_open; tok_of_bool o.o_closed]
 
 let dispatch cmd a =
@@ -93,7 +106,7 @@ let dispatch cmd a =
     ^ " # " ^ (if log = [] then "-" else String.concat "," (List.map tok_of_obs log))
     ^ " # " ^ tok_of_bool (List.for_all obs_okb log)
   | "fail_exn" ->
-    (match fail_exn (mode_of a.(0).[0]) (outcome_of a.(1)) with None -> "none" | Some XLaspy -> "xl" | Some XOther -> "xo")
+    (match fail_exn (mode_of a.(0).[0]) (outcome_of a.(1)) with None -> "none" | Some XLaspy -> "xl" | Some XOther -> "xo" | Some XBase -> "xb")
   | _ -> "unknown-command " ^ cmd
 
 let () =
